@@ -1122,13 +1122,13 @@ def tie_regenerated(run):
     return "check", [], True
 
 
-def build_gen(run, props):
+def build_gen(run, props, extra=()):
     """run.build_props(props), repeated when the build died without a Coq error location"""
     import re as _re
     nb, no = len(run.broken), len(run.obligations)
     ok = False
     for attempt in range(3):
-        ok = run.build_props(props=props)
+        ok = run.build_props(props=props, extra=extra)
         log = run.broken[-1].get("log", "") if len(run.broken) > nb else ""
         if ok or _re.search(r'File "[^"]+", line \d+', log) or attempt == 2:
             break
@@ -1153,7 +1153,7 @@ def tie_regenerated_loops(run, base_ok):
     if not base_ok:
         run.notes.append("tie (loops): not rebuilt, the regenerated varAnd / varOr they call are not (provably) the model")
         return False
-    if build_gen(run, "Props/C02_gen_loops.v"):
+    if build_gen(run, "Props/C02_gen_loops.v", extra=["Corr/C02_loops.v"]):
         run.notes.append("tie (loops): regenerated (%s)" % ", ".join(done))
         run.extra_cov["tie_loops"] = ("translation (regenerated loops proved equal to full_simple / full_plus / full_comma of "
                                       "Model/C03_Full.v: %s)" % ", ".join(done))
@@ -1162,12 +1162,58 @@ def tie_regenerated_loops(run, base_ok):
                            "stats.compile / halloffame.update / logbook.record mapped to the statements of coq/Model/C02_GenLoopsRt.v)")
         return True
     run.extra_cov["tie_loops"] = "translator succeeded but the regenerated loops are no longer (provably) the composed model"
+    run.loops_broken = True
     try:
         with open(os.path.join(run.rundir, "C02_gen_loops.v.broken"), "w") as f:
             f.write(open(GEN_LOOPS).read())
     except OSError:
         pass
     return False
+
+
+def loops_search(run):
+    """After a broken loops obligation: look for a run of eaSimple / eaMuPlusLambda / eaMuCommaLambda on which the
+    implementation violates the statement about the loops (the oracle of harness/c03.py, which is independent of the
+    models), so that the verdict names a failing input."""
+    import random as _r
+    try:
+        import c03
+    except Exception as e:  # noqa
+        run.notes.append("loops search skipped: harness/c03.py cannot be imported (%r)" % (e,))
+        return
+    rng = _r.Random(run.rng.getrandbits(64))
+    found = 0
+    for it in range(run.scale(150, 600)):
+        kind = ("simple", "plus", "comma")[it % 3]
+        try:
+            n, ngen = rng.randint(1, 6), rng.randint(1, 4)
+            cfg = c03.gen_simple(rng, n=n, ngen=ngen) if kind == "simple" else c03.gen_mu(rng, kind, n=n, ngen=ngen)
+            cfg = c03.fix_guards(cfg)
+            cfg["alias"] = []
+            leg, obs = c03.run_impl(cfg)[0]
+            pub = c03.cfg_public(leg)
+            if "skipped" in obs:
+                continue
+            run.note_case(("loops-search", pub), True)
+            if "raised" in obs:
+                run.oracle_violation("the loop raised " + obs["raised"], pub, observed=obs["raised"])
+                found += 1
+            else:
+                bad = c03.oracle(leg, obs, {"shown": set(), "best_seen": []}) if leg.get("stats", True) else c03.oracle_nostats(leg, obs)
+                if bad:
+                    run.oracle_violation("packaged loop: " + bad[0], pub, observed=bad[:5])
+                    found += 1
+        except Exception:  # noqa
+            continue
+        if found >= 5:
+            break
+    run.notes.append("loops search (oracle of harness/c03.py) after a broken loops obligation: %d violation(s)" % found)
+
+
+def search_after_break(run):
+    wide_search(run)
+    if getattr(run, "loops_broken", False) and not run.oracle_viol:
+        loops_search(run)
 
 
 def loops_correspondence(run):
@@ -1314,7 +1360,7 @@ def main(run):
     build_with_retry(run)
     gen_check, reqs, translated = tie_regenerated(run)
     loops_ok = tie_regenerated_loops(run, gen_check == "check_both")
-    run.search_fn = wide_search
+    run.search_fn = search_after_break
     corpus_runs(run)
     terms, cases = [], []
     instrumented_cases(run, terms, cases)
